@@ -75,6 +75,12 @@ Definition xf_tmle_est_or (all : list xrow) : Q :=
 Definition mean_sq (v : list Q) : Q := Qsum (fun x => x * x) v / Qlen v.
 Definition stmle_var (v : list Q) : Q := mean_sq v / Qlen v.
 
+(* a row as StochasticTMLE's variance estimators see it: clever covariate, outcome, initial prediction at the observed
+   treatment, mean over the Monte-Carlo replicates of the targeted prediction under the plan *)
+Record zrow := { z_h : Q; z_y : Q; z_q : Q; z_qs : Q }.
+Definition stmle_ic (psi : Q) (r : zrow) : Q := z_h r * (z_y r - z_q r) + z_qs r - psi.
+Definition stmle_ic_cond (r : zrow) : Q := z_h r * (z_y r - z_q r).
+
 (* weight-robust (independence working correlation, one cluster per row) sandwich of the MSM saturated in A *)
 Definition sw_num (W : row -> Q) (mu : Q) (a : bool) (l : list row) : Q :=
   Qsum (fun r => ind (arm a r) * ind (obs r) * (W r * W r) * ((yval r - mu) * (yval r - mu))) l.
